@@ -33,6 +33,9 @@ def _bounded(fn, seconds=20.0):
     def onalarm(signum, frame):
         raise _Hang("did not return within %.0f s" % seconds)
 
+    import time as _t
+    left = signal.getitimer(signal.ITIMER_REAL)[0]      # the global watchdog of harness/check.py uses the same timer
+    t0 = _t.time()
     old = signal.signal(signal.SIGALRM, onalarm)
     signal.setitimer(signal.ITIMER_REAL, seconds)
     try:
@@ -40,6 +43,8 @@ def _bounded(fn, seconds=20.0):
     finally:
         signal.setitimer(signal.ITIMER_REAL, 0)
         signal.signal(signal.SIGALRM, old)
+        if left > 0:
+            signal.setitimer(signal.ITIMER_REAL, max(1.0, left - (_t.time() - t0)))
 
 
 def ints(lp):
